@@ -5,7 +5,7 @@ import shutil
 import subprocess
 
 REAL = {}
-for _name in ("git", "diff3", "diff"):
+for _name in ("git", "diff3", "diff", "cat", "sed", "sh"):
     _p = shutil.which(_name, path="/usr/bin:/bin:/usr/local/bin")
     if _p:
         REAL[_name] = os.path.realpath(_p) if _name != "git" else _p
